@@ -84,14 +84,14 @@ def run_case(case, strict=False):  # pylint: disable=unused-argument,too-many-br
                                 out.append(asserts.F("c14_resync_on_disable", it, "after a disable inside an episode the printer %s is %r, the file is at %r" % (name, pf[ax], pu[ax])))
                         if pf[ABS] != pu[ABS] or pf[U] != pu[U]:
                             out.append(asserts.F("c14_resync_on_disable", it, "mode/units differ after a disable inside an episode"))
-                    elif it.out:
-                        out.append(asserts.F("c14_disable_sends", it, "disable outside an episode sent %r" % (it.out,)))
+                    elif it.out and asserts.last_snap(it)[:10] != it.f_before[:10]:
+                        out.append(asserts.F("c14_disable_sends", it, "disable outside an episode sent %r, which changes the printer's state" % (it.out,)))
                 elif not it.enabled_before and it.enabled_after:
                     cl.add("enable")
                     if phase == 2:
                         phase = 3
-                    if it.out:
-                        out.append(asserts.F("c14_enable_sends", it, "enable sent %r" % (it.out,)))
+                    if it.out and asserts.last_snap(it)[:10] != it.f_before[:10]:
+                        out.append(asserts.F("c14_enable_sends", it, "enable sent %r, which changes the printer's state" % (it.out,)))
                     snap = after.get(it.idx)
                     if snap is not None and not snap["enabled"]:
                         out.append(asserts.F("c14_enable_ignored", it, "exclusion still disabled after a matching enable"))
